@@ -86,6 +86,9 @@ def run(ctx):
     ev = [e for p in nonpanic(walk(f)) for e in event_strs(p)]
     ctx.check("C09-R5", "closed() awaits watch::Sender::closed", any(re.match(r"^await Sender::closed\(", e) for e in ev), "SharedResultSet::closed does not await watch::Sender::closed: %s" % ev, where(f))
 
+    ctx.rule("C09-R7", "the worker can always observe termination: its loop parks only at the select!, handlers never await")
+    shared.worker_loop_never_parks(ctx, "C09-R7", idx)
+
     ctx.rule("C09-R6", "panic inventory of the worker and the Driver/Connection API (structural discharges where the invariant is visible)")
     inv = []
     targets = [fn for fn in A.fn_list if fn.body and re.match(r"^wtransport::(driver::(Driver|worker::Worker)|connection::Connection)::", fn.path) and "::tests::" not in fn.path]
